@@ -10,6 +10,9 @@ CLAIMED = {
  'C01': ('model_checking', 'Bounded model checking of parse(format(v)) == v on the real constructors, formatter, parser and ==: value shapes and numbers enumerated (all 30 constructors, nestings, 4 punctuations, 8 stamps, truths, budgets), atom names symbolic (all well-formed 1-char names; thorough: 2-char) in all 3 formats. Holds for every name within those shapes; deeper nesting and longer names are outside.', '§4 C01'),
  'C04': ('model_checking', 'Bounded model checking of totality: every string up to N chars over all Unicode scalar values (N per entry point in evidence), formatter-produced samples cut/corrupted at every position, and the error window for every 64-bit cursor value; panics and step-budget overruns are replayed natively.', '§4 C04'),
  'C08': ('model_checking', 'parse_multi vs parse on symbolic histories (every fragment kind with an arbitrary char at every position, all short histories), parse vs parse_chars vs repeated parse on all short strings, lexical parser on a reused vs fresh format instance.', '§4 C08'),
+ 'C03': ('model_checking', 'Both pipelines (enum parser; lexical parser + fold) executed on the same symbolic text for every value shape incl. the four derived copulas, sentences and tasks, in all three formats; results must agree with each other and with the constructor-built value, for every well-formed 1-char name.', '§4 C03'),
+ 'C09': ('model_checking', 'Token layouts of value shapes joined with spacing patterns (none / 1 / 2 spaces at every boundary; thorough: k spaces at each single boundary; tab/newline/U+3000 for the lexical pipeline) parsed by the real enum parser and by lexical parser + fold; result must equal the value for every well-formed name.', '§4 C09'),
+ 'C12': ('model_checking', 'Every Ok result of the enum parser and of lexical parse + fold on all short strings and on corrupted samples is checked against the well-formedness predicate under the path condition (symbolic numbers decided by the solver) and then printed by all three formatters and the Typst renderer.', '§4 C12'),
 }
 checks = []
 for pid in props:
